@@ -2676,12 +2676,14 @@ class MulIntegerExpr(MathIntegerExpr):
         total = self.children[0].get_literal_result()
         for operand, operator in itertools.islice(zip(self.children, self.divide), 1, None):
             value = operand.get_literal_result()
-            if operator == MulIntegerExprOp.DIV:
-                total //= value
-            elif operator == MulIntegerExprOp.MOD:
-                total %= value
-            else:
+            if operator == MulIntegerExprOp.MUL:
                 total *= value
+            else:
+                # as in C: the quotient is truncated towards zero and the remainder takes the sign of the dividend
+                quotient = abs(total) // abs(value)
+                if (total < 0) != (value < 0):
+                    quotient = -quotient
+                total = quotient if operator == MulIntegerExprOp.DIV else total - quotient * value
         return total
 
     def __eq__(self, other):
